@@ -284,7 +284,7 @@ func ToBlech32(bl *Blech32) (string, error) {
 	// Group the address bytes into 5 bit groups, as this is what is used to
 	// encode each character in the address string.
 	converted, err := blech32.ConvertBits(
-		append(bl.PublicKey, bl.Program...),
+		append(append([]byte{}, bl.PublicKey...), bl.Program...),
 		8,
 		5,
 		true,
@@ -314,8 +314,8 @@ func ToBlech32(bl *Blech32) (string, error) {
 		return "", fmt.Errorf("invalid blech32 address: %v", err)
 	}
 
-	blechData := append(blech.PublicKey, blech.Program...)
-	blData := append(bl.PublicKey, bl.Program...)
+	blechData := append(append([]byte{}, blech.PublicKey...), blech.Program...)
+	blData := append(append([]byte{}, bl.PublicKey...), bl.Program...)
 
 	if blech.Version != bl.Version || !bytes.Equal(blechData, blData) {
 		return "", fmt.Errorf("invalid segwit address")
